@@ -1098,6 +1098,8 @@ def ref_items(ex, cells, pub_only=True):
             t = tok_at(ex, pb)
             if t == END or tk_group_delim(ex, t) != '(':
                 return ('unspecified', 'fn without a parameter list')
+            if [(x[0], x[1]) for x in tk_group_content(ex, t)] == [('I', 'crate')]:
+                return ('unspecified', '`(crate)` is a visibility restriction, not a parameter list')
             pb.pos += 1
             if punct_is(ex, tok_at(ex, pb), '->'):
                 if ident_is(ex, tok_at(ex, pb, 1), 'impl'):
